@@ -7,12 +7,284 @@ import Rtcp.Proofs.BufLemmas2
 namespace Rtcp.Proofs
 open Rtcp Rtcp.Impl Rtcp.Spec Rtcp.Props
 
+theorem item_calcSize_ne_panic (b : SdesItemBuilder) : b.calcSize ≠ .panic := by
+  unfold SdesItemBuilder.calcSize
+  simp only []
+  repeat' split
+  all_goals simp
+
+theorem sdesw_setByte_0 {ε : Type} (x v : UInt8) (r : Bytes) :
+    (setByte (x :: r) 0 v : R ε Bytes) = .ok (v :: r) := by simp [setByte]
+theorem sdesw_setByte_1 {ε : Type} (a x v : UInt8) (r : Bytes) :
+    (setByte (a :: x :: r) 1 v : R ε Bytes) = .ok (a :: v :: r) := by simp [setByte]
+theorem sdesw_setByte_2 {ε : Type} (a b x v : UInt8) (r : Bytes) :
+    (setByte (a :: b :: x :: r) 2 v : R ε Bytes) = .ok (a :: b :: v :: r) := by simp [setByte]
+
+theorem sdesw_copyAt_c3 {ε : Type} (a b c : UInt8) (r src : Bytes) (e : Nat) (he : e = src.length + 3)
+    (hr : src.length ≤ r.length) :
+    (copyAt (a :: b :: c :: r) 3 e src : R ε Bytes) = .ok ([a, b, c] ++ src ++ r.drop src.length) := by
+  have := Var.copyAt_app (ε := ε) [a, b, c] r src 3 e rfl (by simp; omega) hr
+  simpa using this
+
+theorem sdesw_copyAt_c2 {ε : Type} (a b : UInt8) (r src : Bytes) (e : Nat) (he : e = src.length + 2)
+    (hr : src.length ≤ r.length) :
+    (copyAt (a :: b :: r) 2 e src : R ε Bytes) = .ok ([a, b] ++ src ++ r.drop src.length) := by
+  have := Var.copyAt_app (ε := ε) [a, b] r src 2 e rfl (by simp; omega) hr
+  simpa using this
+
+theorem item_tail (b : SdesItemBuilder) (n : Nat) (h : b.calcSize = .ok n) :
+    (itemImage b).length = n ∧ Var.TailSpec b.writeUnchecked (itemImage b) := by
+  unfold SdesItemBuilder.calcSize at h
+  simp only [SdesItem.PRIV] at h
+  by_cases hp : b.type = 8
+  · simp only [hp, beq_self_eq_true, ↓reduceIte] at h
+    split at h
+    · cases h
+    split at h
+    · cases h
+    cases h
+    have hl : (itemImage b).length = 3 + b.prefix_.length + b.value.length := by
+      simp [itemImage, hp]; omega
+    refine ⟨hl, ?_⟩
+    intro r hr
+    rw [hl] at hr ⊢
+    rcases r with _ | ⟨x, _ | ⟨y, _ | ⟨z, rest⟩⟩⟩
+    · simp at hr
+    · simp at hr; omega
+    · simp at hr; omega
+    simp only [List.length_cons] at hr
+    unfold SdesItemBuilder.writeUnchecked
+    simp only [SdesItem.PRIV, hp, beq_self_eq_true, ↓reduceIte]
+    rw [sdesw_setByte_0]; simp only [R.ok_bind]
+    rw [sdesw_setByte_1]; simp only [R.ok_bind]
+    rw [sdesw_setByte_2]; simp only [R.ok_bind]
+    rw [sdesw_copyAt_c3 _ _ _ _ _ _ rfl (by omega)]
+    simp only [R.ok_bind]
+    rw [Var.copyAt_app _ _ b.value _ _ (by simp) (by simp) (by simp; omega)]
+    simp only [R.ok_bind, R.pure_eq]
+    rw [show 3 + b.prefix_.length + b.value.length = (b.prefix_.length + b.value.length) + 1 + 1 + 1 by omega]
+    simp [itemImage, hp, List.drop_drop]
+    omega
+  · have hp' : (b.type == 8) = false := by simpa using hp
+    simp only [hp', Bool.false_eq_true, ↓reduceIte] at h
+    split at h
+    · cases h
+    cases h
+    have hl : (itemImage b).length = 2 + b.value.length := by
+      simp [itemImage, hp]; omega
+    refine ⟨hl, ?_⟩
+    intro r hr
+    rw [hl] at hr ⊢
+    rcases r with _ | ⟨x, _ | ⟨y, rest⟩⟩
+    · simp at hr
+    · simp at hr; omega
+    simp only [List.length_cons] at hr
+    unfold SdesItemBuilder.writeUnchecked
+    simp only [SdesItem.PRIV, hp', Bool.false_eq_true, ↓reduceIte]
+    rw [sdesw_setByte_0]; simp only [R.ok_bind]
+    rw [sdesw_setByte_1]; simp only [R.ok_bind]
+    rw [sdesw_copyAt_c2 _ _ _ _ _ rfl (by omega)]
+    simp only [R.ok_bind, R.pure_eq]
+    rw [show 2 + b.value.length = b.value.length + 1 + 1 by omega]
+    simp [itemImage, hp]
+
 theorem item_refines (b : SdesItemBuilder) :
-    Refines ⟨b.calcSize, b.writeUnchecked, none⟩ (itemImage b) := by sorry
+    Refines ⟨b.calcSize, b.writeUnchecked, none⟩ (itemImage b) :=
+  Var.refines_of_tail _ _ _ _ (item_calcSize_ne_panic b) (item_tail b)
+
+/-! ## chunk -/
+
+theorem itemSizes_ne_panic (items : List SdesItemBuilder) (acc : Nat) :
+    SdesChunkBuilder.itemSizes items acc ≠ .panic := by
+  induction items generalizing acc with
+  | nil => simp [SdesChunkBuilder.itemSizes]
+  | cons it rest ih =>
+    unfold SdesChunkBuilder.itemSizes
+    cases h : it.calcSize with
+    | ok n => exact ih _
+    | err e => simp
+    | panic => exact absurd h (item_calcSize_ne_panic it)
+
+theorem itemSizes_ok (items : List SdesItemBuilder) (acc n : Nat)
+    (h : SdesChunkBuilder.itemSizes items acc = .ok n) :
+    n = acc + ((items.map itemImage).flatten).length ∧
+      ∀ it ∈ items, Var.TailSpec it.writeUnchecked (itemImage it) := by
+  induction items generalizing acc with
+  | nil => simp [SdesChunkBuilder.itemSizes] at h; simp [h]
+  | cons it rest ih =>
+    unfold SdesChunkBuilder.itemSizes at h
+    cases h' : it.calcSize with
+    | ok k =>
+      simp only [h'] at h
+      obtain ⟨h1, h2⟩ := ih _ h
+      obtain ⟨h3, h4⟩ := item_tail it k h'
+      constructor
+      · simp only [List.map_cons, List.flatten_cons, List.length_append]; omega
+      · intro x hx
+        rcases List.mem_cons.mp hx with rfl | hx
+        · exact h4
+        · exact h2 x hx
+    | err e => simp only [h'] at h; cases h
+    | panic => simp only [h'] at h; cases h
+
+theorem writeItems_app (items : List SdesItemBuilder) (d r : Bytes) (i : Nat) (hi : i = d.length)
+    (ht : ∀ it ∈ items, Var.TailSpec it.writeUnchecked (itemImage it))
+    (hr : ((items.map itemImage).flatten).length ≤ r.length) :
+    SdesChunkBuilder.writeItems items (d ++ r) i
+      = .ok (d ++ (items.map itemImage).flatten ++ r.drop ((items.map itemImage).flatten).length,
+          i + ((items.map itemImage).flatten).length) := by
+  induction items generalizing d r i with
+  | nil => simp [SdesChunkBuilder.writeItems]
+  | cons it rest ih =>
+    simp only [List.map_cons, List.flatten_cons, List.length_append] at hr ⊢
+    unfold SdesChunkBuilder.writeItems
+    have h1 := ht it (by simp) r (by omega)
+    rw [Var.withTail_app_ok d r _ _ i _ hi h1]
+    simp only []
+    rw [← List.append_assoc]
+    rw [ih (d ++ itemImage it) _ _ (by simp; omega) (fun x hx => ht x (by simp [hx]))
+      (by simp [-List.length_flatten]; omega)]
+    simp only [List.append_assoc, List.drop_drop, Nat.add_assoc]
+
+theorem sdesw_pad4_succ_gt (i : Nat) : i < pad4 (i + 1) := by unfold pad4; omega
+
+theorem chunk_calcSize_ne_panic (b : SdesChunkBuilder) : b.calcSize ≠ .panic := by
+  unfold SdesChunkBuilder.calcSize
+  cases h : SdesChunkBuilder.itemSizes b.items 0 with
+  | ok n => simp
+  | err e => simp
+  | panic => exact absurd h (itemSizes_ne_panic _ _)
+
+theorem chunk_tail (b : SdesChunkBuilder) (n : Nat) (h : b.calcSize = .ok n) :
+    (chunkImage b).length = n ∧ Var.TailSpec b.writeUnchecked (chunkImage b) := by
+  unfold SdesChunkBuilder.calcSize at h
+  cases hs : SdesChunkBuilder.itemSizes b.items 0 with
+  | err e => simp [hs] at h
+  | panic => simp [hs] at h
+  | ok k =>
+    simp only [hs, R.ok_bind, R.pure_eq, R.ok.injEq] at h
+    obtain ⟨hk, ht⟩ := itemSizes_ok _ _ _ hs
+    have hl : (chunkImage b).length = pad4 (4 + ((b.items.map itemImage).flatten).length + 1) := by
+      rw [chunkImage, Var.length_zfill]
+      simp [-List.length_flatten, Nat.add_assoc]
+    refine ⟨by rw [hl, ← h, hk]; simp [-List.length_flatten, Nat.add_assoc], ?_⟩
+    intro r hr
+    rw [hl] at hr ⊢
+    generalize hS : ((b.items.map itemImage).flatten).length = S at *
+    have hp := sdesw_pad4_succ_gt (4 + S)
+    unfold SdesChunkBuilder.writeUnchecked
+    rw [copyAt_zero (by simp) (by omega)]
+    simp only [R.ok_bind]
+    rw [writeItems_app _ _ _ _ (by simp) ht (by simp [-List.length_flatten]; omega)]
+    simp only [R.ok_bind, hS]
+    rw [if_pos hp]
+    rw [Var.fillAt_app _ _ _ _ (pad4 (4 + S + 1) - (4 + S)) 0 (by simp [-List.length_flatten, hS])
+      (by simp [-List.length_flatten, hS]; omega) (by simp; omega)]
+    simp only [R.ok_bind, R.pure_eq]
+    have e1 : pad4 (4 + S + 1) - (4 + S) = (pad4 (4 + S + 1) - (4 + S + 1)) + 1 := by omega
+    have e2 : (be32 b.ssrc ++ (b.items.map itemImage).flatten ++ [0]).length = 4 + S + 1 := by
+      simp [-List.length_flatten, hS]; omega
+    rw [chunkImage, zfill, e2, e1, List.replicate_succ]
+    simp only [List.drop_drop, List.append_assoc, List.cons_append, List.nil_append]
+    rw [show 4 + S + (pad4 (4 + S + 1) - (4 + S + 1) + 1) = pad4 (4 + S + 1) by omega]
 
 theorem chunk_refines (b : SdesChunkBuilder) :
-    Refines ⟨b.calcSize, b.writeUnchecked, none⟩ (chunkImage b) := by sorry
+    Refines ⟨b.calcSize, b.writeUnchecked, none⟩ (chunkImage b) :=
+  Var.refines_of_tail _ _ _ _ (chunk_calcSize_ne_panic b) (chunk_tail b)
 
-theorem sdes_refines (b : SdesBuilder) : Refines b.toWriter (sdesImage b) := by sorry
+/-! ## SDES packet -/
+
+theorem chunkSizes_ne_panic (cs : List SdesChunkBuilder) (acc : Nat) :
+    SdesBuilder.chunkSizes cs acc ≠ .panic := by
+  induction cs generalizing acc with
+  | nil => simp [SdesBuilder.chunkSizes]
+  | cons c rest ih =>
+    unfold SdesBuilder.chunkSizes
+    cases h : c.calcSize with
+    | ok n => exact ih _
+    | err e => simp
+    | panic => exact absurd h (chunk_calcSize_ne_panic c)
+
+theorem chunkSizes_ok (cs : List SdesChunkBuilder) (acc n : Nat)
+    (h : SdesBuilder.chunkSizes cs acc = .ok n) :
+    n = acc + ((cs.map chunkImage).flatten).length ∧
+      ∀ c ∈ cs, Var.TailSpec c.writeUnchecked (chunkImage c) := by
+  induction cs generalizing acc with
+  | nil => simp [SdesBuilder.chunkSizes] at h; simp [h]
+  | cons c rest ih =>
+    unfold SdesBuilder.chunkSizes at h
+    cases h' : c.calcSize with
+    | ok k =>
+      simp only [h'] at h
+      obtain ⟨h1, h2⟩ := ih _ h
+      obtain ⟨h3, h4⟩ := chunk_tail c k h'
+      constructor
+      · simp only [List.map_cons, List.flatten_cons, List.length_append]; omega
+      · intro x hx
+        rcases List.mem_cons.mp hx with rfl | hx
+        · exact h4
+        · exact h2 x hx
+    | err e => simp only [h'] at h; cases h
+    | panic => simp only [h'] at h; cases h
+
+theorem writeChunks_app (cs : List SdesChunkBuilder) (d r : Bytes) (i : Nat) (hi : i = d.length)
+    (ht : ∀ c ∈ cs, Var.TailSpec c.writeUnchecked (chunkImage c))
+    (hr : ((cs.map chunkImage).flatten).length ≤ r.length) :
+    SdesBuilder.writeChunks cs (d ++ r) i
+      = .ok (d ++ (cs.map chunkImage).flatten ++ r.drop ((cs.map chunkImage).flatten).length,
+          i + ((cs.map chunkImage).flatten).length) := by
+  induction cs generalizing d r i with
+  | nil => simp [SdesBuilder.writeChunks]
+  | cons c rest ih =>
+    simp only [List.map_cons, List.flatten_cons, List.length_append] at hr ⊢
+    unfold SdesBuilder.writeChunks
+    have h1 := ht c (by simp) r (by omega)
+    rw [Var.withTail_app_ok d r _ _ i _ hi h1]
+    simp only []
+    rw [← List.append_assoc]
+    rw [ih (d ++ chunkImage c) _ _ (by simp; omega) (fun x hx => ht x (by simp [hx]))
+      (by simp [-List.length_flatten]; omega)]
+    simp only [List.append_assoc, List.drop_drop, Nat.add_assoc]
+
+theorem sdes_calcSize_cases (b : SdesBuilder) :
+    (∃ e, b.calcSize = .err e) ∨
+    (b.chunks.length ≤ 31 ∧ b.padding.toNat % 4 = 0 ∧
+      (∀ c ∈ b.chunks, Var.TailSpec c.writeUnchecked (chunkImage c)) ∧
+      b.calcSize = .ok (4 + ((b.chunks.map chunkImage).flatten).length + b.padding.toNat)) := by
+  unfold SdesBuilder.calcSize
+  split
+  · exact .inl ⟨_, rfl⟩
+  · next hlen =>
+    rcases checkPadding_cases b.padding with ⟨hp, h⟩ | ⟨hp, h⟩ <;> simp only [h, R.ok_bind, R.err_bind]
+    · cases hs : SdesBuilder.chunkSizes b.chunks 0 with
+      | ok n =>
+        obtain ⟨h1, h2⟩ := chunkSizes_ok _ _ _ hs
+        simp only [R.ok_bind]
+        unfold checkPacketLen
+        split
+        · exact .inl ⟨_, rfl⟩
+        · refine .inr ⟨by omega, hp, h2, ?_⟩
+          simp [-List.length_flatten, h1]
+      | err e => exact .inl ⟨_, rfl⟩
+      | panic => exact absurd hs (chunkSizes_ne_panic _ _)
+    · exact .inl ⟨_, rfl⟩
+
+theorem sdes_refines (b : SdesBuilder) : Refines b.toWriter (sdesImage b) := by
+  rcases sdes_calcSize_cases b with ⟨e, he⟩ | ⟨hlen, hp, ht, hs⟩
+  · exact refines_of_err he
+  · refine refines_of_ok hs ?_ ?_
+    · simp [sdesImage, packet_length, -List.length_flatten]
+    · intro buf hl
+      show b.writeUnchecked buf = _
+      unfold SdesBuilder.writeUnchecked
+      rw [writeHeader_spec _ _ _ _ (by omega) (by rw [toUInt8_toNat_of_lt (by omega)]; exact hlen)]
+      simp only [R.ok_bind]
+      rw [writeChunks_app _ _ _ _ (by simp) ht (by simp [-List.length_flatten]; omega)]
+      simp only [R.ok_bind]
+      rw [withTail_writePadding_final _ (by simp [-List.length_flatten]) (by simp [-List.length_flatten]; omega)]
+      simp only [R.ok_bind, R.pure_eq]
+      rw [toUInt8_toNat_of_lt (by omega)]
+      unfold sdesImage
+      rw [← packet_eq _ _ _ _ (total := buf.length) (by omega)]
 
 end Rtcp.Proofs
